@@ -355,6 +355,32 @@ class World:
             self.fn(t[1]), *[self.build(x) for x in t[2]], **{k: self.build(x) for k, x in t[3].items()}
         )
 
+    def _sig_fn(self, name, first):
+        """a function with a real signature: (a|x, b, c), the last ones with signature defaults"""
+        f = self.fn(name)
+        if first == "a":
+
+            def lifted(a=("sig", "a"), b=("sig", "b"), c=("sig", "c")):
+                return f(a, b, c)
+
+        else:
+
+            def lifted(x, b=("sig", "b"), c=("sig", "c")):
+                return f(x, b, c)
+
+        lifted.__name__ = name
+        return lifted
+
+    def b_falift(self, t):
+        from labrea.application import FunctionApplication
+
+        return FunctionApplication.lift(self._sig_fn(t[1], "a"), **{k: self.build(x) for k, x in t[2].items()})
+
+    def b_palift(self, t):
+        from labrea.application import PartialApplication
+
+        return PartialApplication.lift(self._sig_fn(t[1], "x"), **{k: self.build(x) for k, x in t[2].items()})
+
     def b_step(self, t):
         from labrea import pipeline_step
 
@@ -450,8 +476,12 @@ class World:
             return self.datasets[name][1]
         p = dsprops(t)
         params = [self.build(x) for x in p["params"]]
-        body = self.body_fn(name, len(params))
-        body.__defaults__ = tuple(params) or None
+        if p["definition"] is not None:
+            # dataset(<Evaluatable>): the definition is an expression, not a function
+            body = self.build(p["definition"])
+        else:
+            body = self.body_fn(name, len(params))
+            body.__defaults__ = tuple(params) or None
         kw = {}
         if p["cache"] == "none" or self.mode == "nocache":
             kw["cache"] = NoCache()
@@ -472,7 +502,8 @@ class World:
             # the same definition spelled as a chain of specialised factories: parameters one .where() call
             # each instead of argument defaults (they accumulate), effects one call each (they accumulate
             # too), every other keyword in a call of its own, a NoCache via the .nocache property
-            body.__defaults__ = None
+            if p["definition"] is None:
+                body.__defaults__ = None
             for i, prm in enumerate(params):
                 factory = factory.where(**{f"p{i}": prm})
             for e in kw.pop("effects", []):
